@@ -165,6 +165,25 @@ ENGINES = {
  "E18": dict(path="harness/engines/e18_typed_test.go", kind="typed vs untyped differential over generated facades; REST request recorder"),
 }
 NA = {}
+# ---- workloads added while the fifth round of seeded changes was worked through (DESIGN.md 12.4)
+_R5 = {
+ "C03": " Plus: a relist released by the harness at 'disconnect + reconnect delay - d' for a sweep of d with the watcher held at its log points (nothing older than the list may be applied, no Watch call may go back behind the list's version once restarted there); a Status frame arriving while the relist resets the watcher (the controller must keep following the server).",
+ "C04": " Plus: fault kinds burst+BOOKMARK(last sent version)+close; a relist completing while a reconnect delay is pending followed much later by another disconnect (events after it must arrive within the reconnect delay, no relist in between).",
+ "C05": " Plus: a lagging sibling that drains its whole backlog while the library handles its overrun (held open by the logger); accept-all FILTERED subscribers/clones created while another goroutine publishes (at quiescence their view equals the publisher's).",
+ "C06": " Plus: the readiness transition of pre-built filtered chains (3 levels, filtered subscriptions at every level) repeated 40 times per case.",
+ "C08": " Plus: the controller stopped (cancel/Close) from inside each logger point and each of its own context consultations around 'first list applied' with every kind of subscriber pre-built: a ready controller's filter has seen every listed object; a node that reports Ready() and answers a read without error answers with its synced content.",
+ "C09": " Plus: sibling joins over the same base controllers created and closed while events are in flight.",
+ "C10": " Plus: a stalled consumer closed by its owner in the middle of its overrun.",
+ "C11": " Plus: the root taken down from inside each logger point / context consultation of a scenario cut around 'first list applied -> ready' (tree incl. monitors pre-built): every descendant done, every Events() closed.",
+ "C12": " Plus: state 'watch-frames' (Status, unknown type, nil object, bookmark, foreign object frames); owners closing leaves and Refilter calls racing with the shutdown while events are in flight; the context cancelled from inside each of the library's own consultations of it.",
+ "C13": " Plus: the context cancelled from inside every consultation the lister/controller makes of it (incl. at the tick), creation on a dead context, and a list failing with context.Canceled/DeadlineExceeded (bare, wrapped) while nobody shuts down: stopped or still listing, never alive without relisting.",
+ "C14": " Plus: list errors context.Canceled / DeadlineExceeded (bare and wrapped) while nobody is shutting down.",
+ "C15": " Plus: Get() readers on the big relists (generations never decrease across keys and calls); the cache's own filter cancelling the context at object k of a relist while readers keep reading (a read may fail, a successful one is a complete generation); cache churn: 120 caches per case die while being read, a long-lived one is read throughout, every object stamped with its cache (no result from another cache).",
+ "C16": " Plus: siblings (subscriptions, monitors, filtered subscriptions) of long-lived monitors closed right before events go out; Close()/publisher stop during a slow OnInitialize with a burst in flight (Done() closing while a callback is still running counts as a callback after Done).",
+}
+for _p, _t in _R5.items():
+    PROPS[_p]["rule"] += _t
+
 # ---- coverage floors (quick tier): half of what a quick run at seed 1 observes; counts that are
 # deterministic by construction (states, pairs of C07, request-checks) are exact; throughput-dependent
 # counters of the real-time stress cases (big-snapshots, stress-typed-reads) are 5%.  A thorough run must
